@@ -355,9 +355,17 @@ def run(ctx) -> None:
         for n in walk_local(f.node):
             if isinstance(n, ast.Assign) and isinstance(n.value, ast.Call) and "build_output_to_producer_map" in call_names(db, n.value, f) and any(k.arg == "use_deepest" and isinstance(k.value, ast.Constant) and k.value.value is True for k in n.value.keywords):
                 deep_vars |= {t.id for t in n.targets if isinstance(t, ast.Name)}
-        # functions receiving the map as a parameter
-        if "output_to_producer" in f.param_names:
-            deep_vars.add("output_to_producer")
+        # functions receiving the map as a parameter: the parameter bound, at a call in another edge function, to a
+        # variable that holds the deepest-producer map there
+        for g_ in edge_funcs:
+            g_deep = {t.id for n in walk_local(g_.node) if isinstance(n, ast.Assign) and isinstance(n.value, ast.Call) and "build_output_to_producer_map" in call_names(db, n.value, g_) and any(k.arg == "use_deepest" and isinstance(k.value, ast.Constant) and k.value.value is True for k in n.value.keywords) for t in n.targets if isinstance(t, ast.Name)}
+            if not g_deep:
+                continue
+            for c_ in db.calls_in(g_):
+                if any(cal.func is f for cal in db.resolve_call(c_, g_)):
+                    for pn, a_ in (bind_args(c_, f) or {}).items():
+                        if isinstance(a_, ast.Name) and a_.id in g_deep:
+                            deep_vars.add(pn)
         for c in db.calls_in(f):
             if isinstance(c.func, ast.Attribute) and c.func.attr == "get" and isinstance(c.func.value, ast.Name) and c.func.value.id in deep_vars:
                 n7 += 1
@@ -484,6 +492,25 @@ def run(ctx) -> None:
     rep.add("C20.R8", f"{ext.qname}:outside-by-parent-chain", oke, ext.loc(), "a consumer anywhere in the flat graph counts unless is_descendant_of places it inside the container" if oke else ("external consumers are selected by comparing a node's parent with one scope: only siblings of the container count, a consumer further out is missed and the value loses its DATA node while edges are still routed through it" if parent_eq else "external consumers are not decided by 'not is_descendant_of(<node>, <container>)' over all nodes of the flat graph"))
     if n8 < 20:
         raise AnalysisError(f"only {n8} flat-graph functions found")
+    # every node id a scope function hands back as a place to attach an edge was tested for visibility itself: a
+    # container being expanded and on screen does not make each child visible (hide=True children are never declared)
+    n_ep = 0
+    for f in db.funcs_in("viz.renderer.scope"):
+        if "expansion_state" not in f.param_names:
+            continue
+        ret_lists = {r.value.id for r in walk_local(f.node) if isinstance(r, ast.Return) and isinstance(r.value, ast.Name)}
+        for c in db.calls_in(f):
+            if not (isinstance(c.func, ast.Attribute) and c.func.attr == "append" and isinstance(c.func.value, ast.Name) and c.func.value.id in ret_lists and c.args and isinstance(c.args[0], ast.Name)):
+                continue
+            lp = next((a for a in ancestors(c) if isinstance(a, ast.For)), None)
+            if lp is None or not any(isinstance(x, ast.Name) and x.id == c.args[0].id for x in ast.walk(lp.target)):
+                continue  # not a node id taken from the iteration
+            n_ep += 1
+            v_ = c.args[0].id
+            seen_vis = any(pol and isinstance(a, ast.Call) and "is_node_visible" in call_names(db, a, f) and a.args and isinstance(a.args[0], ast.Name) and a.args[0].id == v_ for a, pol in enclosing_facts(c))
+            rep.add("C20.R6", f"{f.qname}:returned-node-visible:{v_}", seen_vis, f"{f.module.rel}:{c.lineno}", "a node is returned only after is_node_visible(<that node>) held" if seen_vis else f"'{v_}' is returned as an edge endpoint without having been tested for visibility itself (e.g. visibility decided once for the container): a hide=True child becomes the endpoint — the edge is dropped by the caller's re-check or drawn to a node that is not declared in that state")
+    if n_ep < 1:
+        raise AnalysisError("no scope function returning iterated node ids found")
 
 
 def _sep_terminated(a: ast.AST) -> bool:
